@@ -50,7 +50,8 @@ def run(chk, tier):
     import gpnext
     ngp = gpnext.run(chk, P, ["topology-xml.c"])
     chk.floor("R-GPNEXT", "imported identifier stores", ngp, 1)
-    chk.decided += ["indexes into counted array fields stay below the count in every function that the bound analysis covers (19 functions frozen out of scope)",
+    chk.decided += ['an identifier imported from XML never leaves the gp_index allocator at or below it (boundary evaluation)',
+                    "indexes into counted array fields stay below the count in every function that the bound analysis covers (19 functions frozen out of scope)",
                     'no pointer is used (or released again) after its release in any library function',
                     'type-specific attributes are accessed only under the matching object type in every self-discriminating function of the library',
                     "the load pipeline establishes sets, levels, total memory, symmetric-subtree and group depths in dependency order on every success path",
